@@ -363,6 +363,31 @@ def n03():
                 Some(core::mem::size_of::<$Inner>())
             }""")
 
+@mutant("ok05-wrapping-codec-plain", False, "n/a: Wrapping<F> gains a transparent Encode/Decode/EncodeLike/MaxEncodedLen (exactly F's bytes); L1's optional-surface probe must exercise it and stay quiet")
+def n05():
+    edit("src/wrapping.rs", """impl<F: Fixed> Wrapping<F> {""", """impl<F: codec::Encode> codec::Encode for Wrapping<F> {
+    fn size_hint(&self) -> usize {
+        self.0.size_hint()
+    }
+    fn encode_to<W: codec::Output + ?Sized>(&self, dest: &mut W) {
+        self.0.encode_to(dest);
+    }
+}
+impl<F: codec::Encode> codec::EncodeLike for Wrapping<F> {}
+impl<F: codec::Encode> codec::EncodeLike<F> for Wrapping<F> {}
+impl<F: codec::MaxEncodedLen> codec::MaxEncodedLen for Wrapping<F> {
+    fn max_encoded_len() -> usize {
+        F::max_encoded_len()
+    }
+}
+impl<F: codec::Decode> codec::Decode for Wrapping<F> {
+    fn decode<I: codec::Input>(input: &mut I) -> Result<Self, codec::Error> {
+        F::decode(input).map(Wrapping)
+    }
+}
+
+impl<F: Fixed> Wrapping<F> {""")
+
 os.makedirs(OUT, exist_ok=True)
 only = sys.argv[2:] 
 for name, (f, breaks, needs) in MUTANTS.items():
